@@ -57,18 +57,18 @@ Fixpoint iter_scoped (f : arena -> option (list window * arena)) (n : nat) (s : 
   end.
 
 (* windows handed out (in program order) and the arena left for what follows; None = the call panics *)
-Fixpoint run (t : tree) (s : arena) : option (list window * arena) :=
+Fixpoint run_tree (t : tree) (s : arena) : option (list window * arena) :=
   match t with
   | Nop => Some ([], s)
   | Take k => match take k s with Some (w, r) => Some ([w], r) | None => None end
   | Need k => if k <=? avail s then Some ([], s) else None
-  | Seq a b => match run a s with
-               | Some (wa, s1) => match run b s1 with Some (wb, s2) => Some (wa ++ wb, s2) | None => None end
+  | Seq a b => match run_tree a s with
+               | Some (wa, s1) => match run_tree b s1 with Some (wb, s2) => Some (wa ++ wb, s2) | None => None end
                | None => None
                end
-  | Scoped a => match run a s with Some (wa, _) => Some (wa, s) | None => None end
-  | Loop n a => match iter_scoped (run a) n s with Some ws => Some (ws, s) | None => None end
-  | Branch a b => match run a s, run b s with
+  | Scoped a => match run_tree a s with Some (wa, _) => Some (wa, s) | None => None end
+  | Loop n a => match iter_scoped (run_tree a) n s with Some ws => Some (ws, s) | None => None end
+  | Branch a b => match run_tree a s, run_tree b s with
                   | Some (wa, _), Some (wb, _) => Some (wa ++ wb, s)
                   | _, _ => None
                   end
@@ -81,7 +81,7 @@ Definition peak_of (base : Z) (ws : list window) : Z :=
 Definition trace := (list window * Z)%type.   (* windows, peak *)
 
 Definition run_takes (t : tree) (s : arena) : option trace :=
-  match run t s with
+  match run_tree t s with
   | Some (ws, _) => Some (ws, peak_of (fst s) ws)
   | None => None
   end.
@@ -96,7 +96,7 @@ Fixpoint fail_kind (t : tree) (s : arena) : Z :=
   | Nop => 0
   | Take k => match take k s with Some _ => 0 | None => 1 end
   | Need k => if k <=? avail s then 0 else 2
-  | Seq a b => match run a s with
+  | Seq a b => match run_tree a s with
                | Some (_, s1) => fail_kind b s1
                | None => fail_kind a s
                end
